@@ -121,6 +121,12 @@ def check_block(instrs, argv, rng, stats, label, e5_len=6):
                     if res2 == "yes":
                         v2 = seqcheck.check(S, seq2)
                         cul = "rule-discount" if rules and v2 and v2.length <= S["max_progr_len"] and v2.peak <= bs else rule_key(rules)
+                        if not rules or cul != "rule-discount":
+                            # which bound is the binding one?
+                            r_len, _ = brute.exists_within(S, b0, bs + 4, node_budget=150000)
+                            r_hgt, _ = brute.exists_within(S, b0 + 4, bs, node_budget=150000)
+                            which = "stack-bound" if r_len == "yes" else "length-bound" if r_hgt == "yes" else "both-bounds"
+                            cul = which + (":norule" if not rules else ":with-rules")
                         fail("bounds-infeasible", cul, "no realizing sequence with length<=%d and height<=%d exists (exhaustive search) "
                              "although %s realizes the specification (rules: %s)" % (b0, bs, seq2, rule_key(rules)), S, {"rules": rules})
                     else:
